@@ -484,6 +484,11 @@ converter.register_unstructure_hook({class_name}, _unstructure_{class_name.lower
 
                 # Sanitize the property name for use as a Python attribute
                 field_name = NameSanitizer.sanitize_method_name(prop_name)
+                # A field named like a type that annotations of the same class use (`date: date | None = None`) rebinds
+                # that name inside the class body, so the next annotation mentioning the type fails when the module is
+                # imported. Such fields get a trailing underscore; the wire name is kept by the field mapping.
+                if field_name in ("date", "datetime", "time", "timedelta"):
+                    field_name += "_"
 
                 # Collision detection: check if this sanitized name was already used
                 if field_name in seen_field_names:
